@@ -83,6 +83,10 @@ def shards(tier, seed):
     out = [{'part': 'pairs', 'lo': i, 'step': n} for i in range(n)]
     out.append({'part': 'triples', 'random': 0 if tier == 'quick' else 1000000})
     out.append({'part': 'nearest'})
+    # versions are built and compared from several threads (every parse of a grid builds some): all interleavings of
+    # two / three threads with up to `bound` preemptions inside hszinc/version.py
+    out.append({'part': 'threads', 'threads': 2, 'bound': 2 if tier == 'quick' else 3})
+    out.append({'part': 'threads', 'threads': 3, 'bound': 1 if tier == 'quick' else 2})
     return out
 
 
@@ -124,6 +128,13 @@ def check_pair(ctx, Version, a, b):
 
 
 def run_shard(spec, ctx):
+    if spec['part'] == 'threads':
+        warnings.simplefilter('ignore')
+        return threads_part(spec, ctx)
+    return _run_shard(spec, ctx)
+
+
+def _run_shard(spec, ctx):
     warnings.simplefilter('ignore')
     from hszinc.version import Version
     u = universe() + EXTRA
@@ -205,8 +216,98 @@ def run_shard(spec, ctx):
         ctx.sample({'nearest': {s: str(res[s]) for s in ['1.0', '2', '2.0.0', '2.0a', '2.5', '3.0.0', '4.0', '10.1.0rc1']}})
 
 
+THREAD_JOBS = [('3.0', '2.0'), ('2.0', '3.0'), ('2.0a', '2.0'), ('3', '3.0.0'), ('2.5', '10.0')]
+
+
+def version_codes():
+    """Code objects of hszinc/version.py (methods and module-level functions): the places a thread can be pre-empted."""
+    import types
+    from hszinc import version as V
+    codes, names = [], []
+
+    def walk(code):
+        if code.co_filename.endswith('version.py') and id(code) not in [id(c) for c in codes]:
+            codes.append(code)
+            names.append(code.co_name)
+            for c in code.co_consts:
+                if isinstance(c, types.CodeType):
+                    walk(c)
+    for obj in list(vars(V).values()):
+        if isinstance(obj, types.FunctionType):
+            walk(obj.__code__)
+        elif isinstance(obj, type) and obj.__module__ == V.__name__:
+            for m in vars(obj).values():
+                f = getattr(m, '__func__', m)
+                if isinstance(f, types.FunctionType):
+                    walk(f.__code__)
+    return codes, names
+
+
+def _job(Version, a, b):
+    """What one thread does: build two versions from strings, compare them every way, look up the nearest official one."""
+    va, vb = Version(a), Version(b)
+    return (str(va), str(vb), va < vb, va == vb, va > vb, va <= vb, va >= vb, va != vb, hash(va) == hash(Version(a)),
+            va == a, vb == b, str(Version.nearest(va)))
+
+
+def threads_part(spec, ctx, overrides=None):
+    from hszinc.version import Version
+    from vf import sched
+    codes, names = version_codes()
+    if len(codes) < 3:
+        ctx.inconc('fewer than 3 functions of hszinc/version.py could be instrumented')
+        return
+    sched.install(codes)
+    k = spec['threads']
+    jobs = [THREAD_JOBS[i % len(THREAD_JOBS)] for i in range(k)]
+    # single-threaded answers first (the property's other parts check them against the reference order)
+    expected = [_job(Version, a, b) for a, b in jobs]
+
+    def make_ops():
+        return [lambda a=a, b=b: _job(Version, a, b) for a, b in jobs]
+
+    def check(results, s, ov):
+        ctx.case('schedule', k, tuple(ov))
+        ctx.count('schedules executed')
+        if s.failed:
+            ctx.count('schedules with a scheduling problem (not judged): ' + s.failed.split(' at ')[0])
+            return
+        for t, res in enumerate(results):
+            if res is None:
+                continue
+            if res[0] == 'raise' or res[1] != expected[t]:
+                ctx.violation({'part': 'schedule', 'kind': 'version', 'symptom': 'differs-from-single-threaded' if res[0] != 'raise' else 'raises:' + res[1],
+                               'features': ['threads=%d' % k, 'preemptions=%d' % len(ov)]},
+                              'thread %d working on %r got %r, alone it gets %r [schedule %r]' % (t, jobs[t], res[1:], expected[t], list(ov)),
+                              {'threads': k, 'overrides': [list(x) for x in ov]})
+        # and nothing is left behind: the same jobs give the same answers afterwards
+        for t, (a, b) in enumerate(jobs):
+            now = _job(Version, a, b)
+            if now != expected[t]:
+                ctx.violation({'part': 'schedule', 'kind': 'version', 'symptom': 'differs-afterwards', 'features': ['threads=%d' % k]},
+                              'after schedule %r, %r gives %r (before: %r)' % (list(ov), (a, b), now, expected[t]),
+                              {'threads': k, 'overrides': [list(x) for x in ov]})
+                break
+    if overrides is not None:
+        results, s = sched.run_schedule(codes, make_ops(), overrides)
+        check(results, s, overrides)
+        return
+    stats = sched.explore(codes, make_ops, check, spec['bound'], max_schedules=3000 if ctx.tier == 'quick' else 60000)
+    ctx.count('distinct interleavings (trace fingerprints)', len(stats['fingerprints']))
+    ctx.count('single-preemption schedules executed', stats['by_preemptions'].get(1, 0))
+    ctx.note('threads=%d bound=%d: %d schedules (by number of preemptions %r, %d left unexplored by the cap), %d distinct interleavings, up to '
+             '%d decision points; instrumented: %s' % (k, spec['bound'], stats['schedules'], stats['by_preemptions'], stats['left_unexplored'],
+                                                      len(stats['fingerprints']), stats['max_decisions'], ','.join(names)))
+    ctx.cls('schedules', 'threads=%d' % k, 'bound=%d' % spec['bound'])
+    ctx.sample({'threads': k, 'jobs': jobs, 'schedules': stats['schedules'], 'distinct_interleavings': len(stats['fingerprints']),
+                'instrumented_functions': names})
+
+
 def replay(case, ctx):
     warnings.simplefilter('ignore')
+    if 'overrides' in case:
+        threads_part({'threads': case['threads'], 'bound': 0}, ctx, [tuple(x) for x in case['overrides']])
+        return
     from hszinc.version import Version
     check_pair(ctx, Version, case['a'], case['b'])
     check_pair(ctx, Version, case['b'], case['a'])
@@ -221,5 +322,7 @@ def finish(ctx, merged):
         ctx.inconclusive.append('pair sweep incomplete: %d of %d' % (got, want))
     if merged['counters'].get('equal pairs hashed', 0) == 0:
         ctx.inconclusive.append('no equal pair was hashed')
+    if merged['counters'].get('single-preemption schedules executed', 0) < 20:
+        ctx.inconclusive.append('thread schedules: fewer than 20 single-preemption schedules ran')
     if merged['counters'].get('nearest() calls', 0) < n:
         ctx.inconclusive.append('nearest() sweep incomplete')
